@@ -456,13 +456,28 @@ class SpooledStringIO(SpooledIOBase):
 
     def readline(self, length=None):
         self._checkClosed()
-        ret = self.buffer.readline(length).decode('utf-8')
+        # The codecs reader ends a line wherever str.splitlines() does
+        # (\r, \x0b, \x0c, \x1c-\x1e, \x85, \u2028, \u2029). As in
+        # io.StringIO only '\n' ends a line here, so keep going until
+        # the piece read ends with one (or nothing is left).
+        unlimited = length is None or length < 0
+        parts = []
+        while True:
+            part = self.buffer.readline(length).decode('utf-8')
+            parts.append(part)
+            if not unlimited or not part or part.endswith('\n'):
+                break
+        ret = ''.join(parts)
         self._tell = self.tell() + len(ret)
         return ret
 
     def readlines(self, sizehint=0):
-        ret = [x.decode('utf-8') for x in self.buffer.readlines(sizehint)]
-        self._tell = self.tell() + sum(len(x) for x in ret)
+        # split at '\n' only (bytes.splitlines() also splits at a lone '\r')
+        ret = self.read().split('\n')
+        last = ret.pop()
+        ret = [x + '\n' for x in ret]
+        if last:
+            ret.append(last)
         return ret
 
     @property
